@@ -24,7 +24,9 @@ LEVEL_TEXT = (
     "cached materialization, and each materialization name sees at most one completed hook call.  Fault injection: "
     "execute / process steps may run with an armed fault (the n-th row pulled from any leaf payload raises, or the n-th "
     "Processor hook call raises); the exception must propagate, every payload that appears on a node must hold that "
-    "node's true rows (no truncated cache), and all invariants continue to hold for the rest of the history."
+    "node's true rows (no truncated cache), and all invariants continue to hold for the rest of the history.  Lazy-marker "
+    "steps: a user-defined marker constructed with the (possibly lazy) result of execute() as payload, a materialization "
+    "on top, evaluated once by execute or process and then twice more: the later evaluations must not iterate any leaf."
 )
 LEVEL_NOTE = "trusts: counting payloads; attached payloads carry the node's true rows so later results stay comparable with the reference evaluator; iteration engines only (SQL payload attachment is covered through Processor in C07)"
 RULE = (
@@ -84,7 +86,7 @@ def st_case(draw, tier):
     steps = draw(
         st.lists(
             st.tuples(
-                st.sampled_from(["execute", "execute", "process", "attach", "attach", "fault-execute", "fault-process"]),
+                st.sampled_from(["execute", "execute", "process", "attach", "attach", "fault-execute", "fault-process", "lazy-marker"]),
                 st.integers(0, 9999),
             ),
             min_size=4,
@@ -287,6 +289,53 @@ def run_case(case, stats):
                 sync_model(label)
                 continue
             pnode, rel = prefixes[arg % len(prefixes)]
+            if kind == "lazy-marker":
+                # a user-defined marker (extension point) constructed with a payload that is whatever execute() returned
+                # - possibly a lazy iterable that re-evaluates its upstream on every iteration - and a materialization
+                # on top: once that materialization has been evaluated (by execute or by process), evaluating it again
+                # must not touch any leaf (other than a leaf whose payload object *is* the cache)
+                from vf.core.prog import note_marker
+
+                try:
+                    marked = note_marker()(target=rel, payload=rel.engine.execute(rel))
+                    mat = marked.materialized(name=f"lazy{arg}")
+                except Exception as e:
+                    raise Violation("evaluation-raised", f"marker with payload over {str(rel)[:100]}: {type(e).__name__}: {str(e)[:200]}", sig=exc_sig(e))
+                expected = memo[id(pnode)]
+                via = "process" if (arg // 97) % 2 else "execute"
+                label = f"lazy-marker/{via} {str(mat)[:100]}"
+                try:
+                    if via == "process":
+                        first = proc.process(mat)
+                        got = [dict(r) for r in first.engine.execute(first)]
+                    else:
+                        got = [dict(r) for r in mat.engine.execute(mat)]
+                    if got != expected:
+                        raise Violation("rows-differ", f"{label}: expected {expected[:6]} got {got[:6]}", step="lazy-marker")
+                    if mat.payload is None and mat.max_rows != 0 and not mat.is_join_identity:
+                        raise Violation("materialization-without-payload", f"{label}: the materialization has no payload after being evaluated", step="lazy-marker")
+                    for again in (1, 2):
+                        before = starts()
+                        got = [dict(r) for r in mat.engine.execute(mat)]
+                        after = starts()
+                        if got != expected:
+                            raise Violation("rows-differ", f"{label}, evaluation #{again + 1}: expected {expected[:6]} got {got[:6]}", step="lazy-marker")
+                        for i in before:
+                            allowed = 1 if env.payloads[i] is mat.payload else 0
+                            if after[i] - before[i] > allowed:
+                                raise Violation(
+                                    "upstream-re-evaluated",
+                                    f"{label}: evaluation #{again + 1} of the already evaluated materialization iterated leaf {leaves[i][0]} {after[i] - before[i]} time(s); its cache is a {type(mat.payload).__name__}",
+                                    step="lazy-marker",
+                                )
+                except Violation:
+                    raise
+                except Exception as e:
+                    raise Violation("evaluation-raised", f"{label}: {type(e).__name__}: {str(e)[:300]}", sig=exc_sig(e))
+                stats.c[f"step:lazy-marker/{via}"] += 1
+                revisited = True
+                sync_model(label)
+                continue
             faulty = kind.startswith("fault-")
             fault_desc = ""
             if faulty:
